@@ -65,7 +65,7 @@ MIN_COUNTERS = {
                  "zero_blocks_checked": 22000, "executed_values_checked": 50000, "unrequested_blocks_checked": 2200,
                  "cases_chain": 3200, "cases_par": 1000, "cases_add": 800, "cases_mdachain": 1200, "cases_nested": 3300,
                  "cases_returning_sparse_blocks": 3400, "cases_returning_op_blocks": 2100,
-                 "cases_with_overwritten": 350, "symbolic_cases_judged": 220, "symbolic_blocks_checked": 1400,
+                 "cases_with_overwritten": 200, "symbolic_cases_judged": 220, "symbolic_blocks_checked": 1400,
                  "directed_cases": 18},
 }
 SHARD_TIMEOUT = {"quick": 500, "thorough": 3000}
@@ -385,36 +385,55 @@ def classify(case, f):
         history = not f1 and not i1["harness"]
         notes["fails_on_fresh_instance"] = not history
     # 3. the same name produced by two children of a parallel chain and the failing block is a row of that name
+    name_reuse = feats["overwritten"] or feats["overwritten_unread"]
     if feats["par_dup"] and f.out in G.par_duplicates(spec["root"]) and f.what in WRONG_VALUE and not history:
         return "C09:MDOParallelChain:duplicate-output:rows-merged" + (
-            ":with-overwritten-variable" if feats["overwritten"] or feats["overwritten_unread"] else ""), notes
-    # 4. is it caused by re-producing a live name in a chain?  (the SSA twin passes with the same request)
-    if (feats["overwritten"] or feats["overwritten_unread"] or feats["inout_child"]) and not history \
-            and f.what in WRONG_VALUE:
-        for rename_self in (False, True):
-            twin = G.ssa_twin(spec, rename_self=rename_self)
+            ":with-overwritten-variable" if name_reuse else ""), notes
+    # 4. is it caused by re-using a name?  Differential twins in static single assignment form: the first kind of
+    #    renaming that repairs the case (same cumulative request, or everything requested) names the mechanism
+    if (name_reuse or feats["inout_child"] or feats["par_dup"]) and not history and f.what in WRONG_VALUE:
+        ow = G.chain_overwrites(spec["root"])
+        for key, kw in (("overwrites", {}), ("overwrites+in_place_updates", {"rename_self": True}),
+                        ("parallel_duplicates", {"drop_par_dup": True, "only": "par_dup"}),
+                        ("overwrites+parallel_duplicates", {"drop_par_dup": True})):
+            if key.startswith("parallel") and not feats["par_dup"]:
+                continue
+            if kw.pop("only", None) == "par_dup":
+                twin = G.ssa_twin(spec, keep_overwrites=True, **kw)
+            else:
+                twin = G.ssa_twin(spec, **kw)
             if twin is None:
                 continue
-            tcase = single_request_case(case, f.k)
-            tcase["spec"] = twin
-            ren = twin["renamed_outputs"]
-            tcase["requests"][0]["outs"] = sorted(ren.get(o, o) for o in tcase["requests"][0]["outs"])
-            f2, i2 = judge(tcase)
-            passes = not f2 and not i2["harness"]
-            notes["ssa_twin_passes" + ("_with_in_place_updates_renamed" if rename_self else "")] = passes
+            passes = False
+            for everything in (False, True):
+                tcase = single_request_case(case, f.k)
+                tcase["spec"] = twin
+                ren = twin["renamed_outputs"]
+                if everything:
+                    tcase["requests"][0] = {"all": True, "ins": [], "outs": [], "point": 0}
+                else:
+                    tcase["requests"][0]["outs"] = sorted(ren.get(o, o) for o in tcase["requests"][0]["outs"])
+                f2, i2 = judge(tcase)
+                if not f2 and not i2["harness"]:
+                    passes = True
+                    break
+            notes["twin_without_" + key + "_passes"] = passes
             if not passes:
                 continue
-            ow = G.chain_overwrites(spec["root"])
-            if rename_self:
+            if key == "overwrites+in_place_updates":
                 # only renaming the names that a leaf updates in place repairs it, and no leaf was linearized off its
                 # point: reverse_chain_rule composes jac[o][x] through dx_out/dx_in after another output of the same
                 # discipline has already been accumulated into jac[o][x]
                 return "C09:MDOChain:in-out-variable:composed-after-accumulation", notes
+            if key == "parallel_duplicates":
+                return "C09:MDOParallelChain:duplicate-output:rows-merged:seen-downstream", notes
+            if key == "overwrites+parallel_duplicates":
+                return "C09:MDOParallelChain:duplicate-output:rows-merged:with-overwritten-variable", notes
             if f.out in ow["pure_unread"] and f.out not in ow["pure"]:
                 # produced twice, not read in between: nothing to double count; the row of an earlier
                 # producer is reported because the last producer was pruned or comes first in reverse order
                 return KNOWN_OVERWRITE + ":row-of-an-earlier-producer", notes
-            if not (feats["overwritten"] or feats["overwritten_unread"]):
+            if not name_reuse:
                 # the name is overwritten by a sub-process that also reads it (in another of its disciplines)
                 return KNOWN_OVERWRITE + ":by-a-sub-process-reading-it", notes
             return KNOWN_OVERWRITE, notes
